@@ -16,7 +16,6 @@ import copy as _copy
 import glob
 import hashlib
 import json
-import math
 import os
 import subprocess
 import threading
@@ -348,22 +347,13 @@ def np_value(vals, dtype):
     return np.array(vals).astype(dt) if dtype != 'object' else np.array(vals, dtype=object)
 
 
-def fill_for(arr):
-    import numpy as np
-    if arr.dtype == bool:
-        return False
-    if np.issubdtype(arr.dtype, np.integer):
-        return 0
-    if np.issubdtype(arr.dtype, np.str_):
-        return ''
-    return None
-
-
 # --------------------------------------------------------------------------- implementation side
 def impl(case):
     import numpy as np
     import fsic  # noqa: F401
-    case = _copy.deepcopy(case)      # lists of the case are handed to fsic (trace=[...]) and may be mutated by the probes below
+    # lists of the case are handed to fsic (trace=[...]: stored by reference in the Trace) and may be mutated by the probes below:
+    # work on a private copy in which no two events share a list
+    case = json.loads(json.dumps(case))
     enc = Enc(case['vocab'])
     classes = [make_class(d, i) for i, d in enumerate(case['classes'])]
     roots = [ClassRoot(c, d) for c, d in zip(classes, case['classes'])]
@@ -629,13 +619,6 @@ def run_op_(roots, i, o, enc):
 
 
 # --------------------------------------------------------------------------- Coq encoding
-PREAMBLE = '''From Coq Require Import ZArith List Bool.
-Import ListNotations.
-Require Import Fsic.Base.PyBase Fsic.Heap.Heap.
-Open Scope Z_scope.
-'''
-
-
 def cz(i):
     return lib.cZ(i)
 
@@ -725,10 +708,6 @@ def c_tmode(trace, desc, enc):
     if isinstance(trace, str):
         trace = [trace]
     return '(TMUser %s)' % czl(enc.code(v) for v in trace)
-
-
-def dtype_code(vals, dtype, enc):
-    return enc.code(np_value(vals, dtype).dtype)
 
 
 def c_ops(case, ev, out, enc, kinds):
@@ -838,7 +817,9 @@ def c_case(case, obs):
     for ev, out in zip(case['events'], obs['outcomes']):
         k = ev[0]
         if k == 'op':
-            ops = c_ops(case, ev, out, enc, kinds) if ('exc' not in out or ev[2][0] in ('solve', 'lsolve')) else c_ops(case, ev, out, enc, kinds)
+            # (an operation that raised is run in the model too — it fails there the same way and leaves the heap as it is; traced
+            # operations are replayed with the labels they stored before raising: see run_op)
+            ops = c_ops(case, ev, out, enc, kinds)
             if ops and ops[0] == '@solve':
                 evs.append('(HOps %d%%nat %s)' % (ev[1], ops[1]))
             else:
@@ -1204,6 +1185,9 @@ def shrink_candidates(case):
 
 # --------------------------------------------------------------------------- generator
 FLOATS = [0.0, 1.0, 2.5, -3.0, 4.25, 10.0]
+# ad hoc attribute names: ordinary ones, and ones that are fragments of the built-in __dict__ keys (a filter written as a substring
+# test, a prefix test on '_', ... must not lose or share them)
+ATTR_NAMES = ['foo', 'bar', 'baz', 'mode', 'model', 'sub', 'els', 's', 'nam', 'ind', 'spa', 'strict_', 'x_']
 # parser-built classes: (script, ENDOGENOUS, EXOGENOUS, LAGS, LEADS) as fsic.parse_model / build_model produce them (asserted in impl)
 PARSED = [('Y = C + G\nC = 0.5 * Y[-1] + W', ['Y', 'C'], ['G', 'W'], 1, 0),
           ('C = 0.25 * K\nY = C + G', ['C', 'Y'], ['K', 'G'], 0, 0),
@@ -1239,11 +1223,12 @@ def gen_case(rng, flavour, uniq):
         endo, exo = list(endo), list(exo)
         names = endo + exo
     alias = None
-    if flavour in ('alias', 'both') or (parsed and rng.random() < 0.3):
+    sub_mix = flavour == 'linker' and rng.random() < 0.4          # a linker whose submodels carry the mixins
+    if flavour in ('alias', 'both') or (parsed and rng.random() < 0.3) or (sub_mix and rng.random() < 0.6):
         alias = {'GDP': names[0]}
         if rng.random() < 0.5:
             alias['AL2'] = names[-1]
-    tracer = flavour in ('tracer', 'both')
+    tracer = flavour in ('tracer', 'both') or (sub_mix and rng.random() < 0.6)
     desc = {'kind': 'container' if flavour == 'container' else 'model', 'endo': endo, 'exo': exo,
             'check': None if rng.random() < 0.6 else list(endo[:1]), 'lags': rng.choice([0, 1]), 'leads': rng.choice([0, 0, 1]),
             'alias': alias, 'preferred': ([rng.choice(list(alias))] if alias and rng.random() < 0.5 else []),
@@ -1343,17 +1328,19 @@ def gen_op(rng, s, fresh_float, alias, tracer):
     if s.kind == 'linker':
         q = rng.random()
         key = rng.choice(list(s.subs))
-        sub_desc_names = ['status']
-        if q < 0.3:
-            return ['sub_setitem', key, rng.choice(['iterations']), rng.randrange(n), lib.fhex(float(rng.randint(3, 9)))] if False else \
-                   ['sub_lappend', key, rng.choice(['check', 'names', 'endogenous']), s.desc_sub_endo]
-        if q < 0.5:
+        if q < 0.12:
+            return ['sub_setitem', key, s.desc_sub_endo, rng.randrange(n), lib.fhex(fresh_float())]
+        if q < 0.27:
+            return ['sub_lappend', key, rng.choice(['check', 'names', 'endogenous']), s.desc_sub_endo]
+        if q < 0.42:
             return ['lsolve', 1, [[k, []] for k in s.subs]]
-        if q < 0.7:
+        if q < 0.58:
             return ['setitem', 'LV', rng.randrange(n), lib.fhex(fresh_float()), 'attr']
-        if q < 0.85:
+        if q < 0.72:
             return ['lappend', rng.choice(['check', 'endogenous', 'names']), rng.choice(['LV', 'LW'])]
-        return ['setattr', rng.choice(['lags', 'leads', 'foo']), rng.randint(0, 1)]
+        if q < 0.80:
+            return ['setattr', rng.choice(['lags', 'leads']), rng.randint(0, 1)]
+        return rng.choice([['setattr', rng.choice(ATTR_NAMES), rng.randint(0, 5)], ['setattrlist', rng.choice(ATTR_NAMES), [1, 2]]])
     fv = s.fvars
     names_for_access = list(fv) + ([a for a in (alias or {})] if alias and s.kind == 'model' else [])
     q = rng.random()
@@ -1385,12 +1372,12 @@ def gen_op(rng, s, fresh_float, alias, tracer):
         return ['addvar', name, vals, dtype]
     if q < 0.50:
         if s.kind == 'model':
-            return ['setattr', rng.choice(['engine', 'foo', 'bar']), rng.choice([0, 1, 'x'])] if rng.random() < 0.5 else ['setattr', rng.choice(['lags', 'leads']), rng.randint(0, 1)]
-        return ['setattr', rng.choice(['foo', 'bar']), rng.choice([0, 1, 'x'])]
+            return ['setattr', rng.choice(['engine'] + ATTR_NAMES), rng.choice([0, 1, 'x'])] if rng.random() < 0.5 else ['setattr', rng.choice(['lags', 'leads']), rng.randint(0, 1)]
+        return ['setattr', rng.choice(ATTR_NAMES), rng.choice([0, 1, 'x'])]
     if q < 0.56:
         if s.kind == 'model' and rng.random() < 0.7:
             return ['setattrlist', rng.choice(['check', 'endogenous']), [rng.choice(fv)] if fv else []]
-        return ['setattrlist', rng.choice(['foo', 'baz']), [1, 2]]
+        return ['setattrlist', rng.choice(ATTR_NAMES), [1, 2]]
     if q < 0.60:
         return ['strict', rng.random() < 0.5]
     if s.kind == 'model':
@@ -1421,7 +1408,7 @@ def gen_op(rng, s, fresh_float, alias, tracer):
         if tracer:
             return ['trace_t', rng.randrange(n), rng.choice(['lbl', 7]), True if rng.random() < 0.6 else [rng.choice(fv)], rng.random() < 0.25]
         return ['setitem', 'iterations', rng.randrange(n), rng.randint(0, 9), 'attr']
-    return ['lappend', rng.choice(['index', '_attributes']), 'marker'] if rng.random() < 0.3 else ['setattr', 'foo', rng.randint(0, 5)]
+    return ['lappend', rng.choice(['index', '_attributes']), 'marker'] if rng.random() < 0.3 else ['setattr', rng.choice(ATTR_NAMES), rng.randint(0, 5)]
 
 
 def finish(case):
@@ -1496,8 +1483,58 @@ def finish(case):
     return case
 
 
+def corpus_cases():
+    """hand-written histories: every mutable component is present and non-empty when each of the three copy routes is taken"""
+    h = lib.fhex
+    routes = ['copy', 'copy.copy', 'copy.deepcopy']
+    model = {'kind': 'model', 'endo': ['Y', 'C'], 'exo': ['G'], 'check': None, 'lags': 1, 'leads': 0, 'alias': None, 'preferred': [],
+             'tracer': False, 'trace_vars': None}
+    out = []
+    # a linker with ad hoc attributes whose names are fragments of 'submodels', solved, then copied by every route; then both sides move
+    linker = {'kind': 'linker', 'endo': ['LV'], 'exo': [], 'check': None, 'lags': 0, 'leads': 0, 'alias': None, 'preferred': [],
+              'tracer': False, 'trace_vars': None}
+    init = lambda kind, strict=False, initial=None: ['init', 0, {'span': {'kind': kind, 'start': 2000, 'n': 3}, 'strict': strict, 'initial': initial or {}}]
+    evs = [init('list'), init('list'), ['linker_init', 1, [['A', 2], ['B', 3]]]]
+    evs += [['op', 4, ['setattr', nm, i]] for i, nm in enumerate(['mode', 'model', 'sub', 's', 'els', 'foo'])]
+    evs += [['op', 4, ['setattrlist', 'mod', [1, 2]]], ['op', 4, ['lsolve', 1, [['A', []], ['B', []]]]], ['op', 4, ['lappend', 'check', 'LV']]]
+    evs += [['copy', 4, r] for r in routes]
+    evs += [['op', 5, ['sub_setitem', 'A', 'Y', 0, h(7.5)]], ['op', 4, ['sub_lappend', 'B', 'check', 'Y']], ['op', 6, ['setitem', 'LV', 1, h(3.5), 'attr']]]
+    out.append({'classes': [dict(model), linker], 'shared_spans': [], 'events': evs, 'flavour': 'linker'})
+    # a traced model (class-level TRACE_VARIABLES list / None / user list), solved with trace, copied by every route, the copy traced on
+    for tv, trace in ((None, True), (['Y'], True), (None, ['C', 'Y'])):
+        d = dict(model, tracer=True, trace_vars=tv, check=['Y'])
+        evs = [init('list', initial={'G': [h(1.0), h(2.0), h(3.0)]}), ['op', 1, ['solve', 1, [['Y', h(4.0)], ['C', h(5.0)]], trace]],
+               ['op', 1, ['trace_t', 2, 'lbl', trace, False]]]
+        evs += [['copy', 1, r] for r in routes]
+        evs += [['op', 2, ['solve', 1, [['Y', h(6.0)], ['C', h(7.0)]], trace]], ['op', 3, ['trace_t', 2, 7, trace, False]],
+                ['op', 1, ['trace_t', 2, 'lbl', trace, True]], ['op', 4, ['tnames_append', 1, 'G']]]
+        out.append({'classes': [d], 'shared_spans': [], 'events': evs, 'flavour': 'tracer'})
+    # aliases, strict, object / str / bool / int variables, user list attributes, every list mutated before the copies
+    d = dict(model, alias={'GDP': 'Y', 'AL2': 'G'}, preferred=['GDP'])
+    evs = [init('list', strict=True), ['op', 1, ['addvar', 'V1', [None, None, None], 'object']], ['op', 1, ['addvar', 'V2', ['a', 'bb', 'c'], 'str']],
+           ['op', 1, ['addvar', 'V3', [True, False, True], 'bool']], ['op', 1, ['addvar', '_h', [1, 2, 3], 'int']],
+           ['op', 1, ['strict', False]], ['op', 1, ['setattrlist', 'spa', [1, 2]]], ['op', 1, ['setattr', 'x_', 'x']], ['op', 1, ['strict', True]],
+           ['op', 1, ['lappend', 'check', 'C']], ['op', 1, ['lappend', 'endogenous', 'G']], ['op', 1, ['lappend', 'names', 'NEWNAME']],
+           ['op', 1, ['dictset', 'aliases', 'NEWAL', 'C']], ['op', 1, ['lappend', 'preferred_names', 'AL2']],
+           ['op', 1, ['solve', 1, [['Y', h(4.0)], ['C', h(5.0)]], None]], ['op', 1, ['setattr', 'lags', 2]]]
+    evs += [['copy', 1, r] for r in routes]
+    evs += [['init', 0, {'span': {'kind': 'range', 'start': 2000, 'n': 3}, 'strict': False, 'initial': {}}],
+            ['op', 2, ['setitem', 'GDP', 0, h(9.5), 'label']], ['op', 3, ['lappend', 'check', 'G']], ['op', 0, ['lappend', 'CHECK', 'G']],
+            ['op', 5, ['lappend', 'endogenous', 'C']], ['op', 4, ['setseq', 'AL2', [h(1.5), h(2.5), h(3.5)], 'item']]]
+    out.append({'classes': [d], 'shared_spans': [], 'events': evs, 'flavour': 'alias'})
+    # a plain container
+    cont = {'kind': 'container', 'endo': [], 'exo': [], 'check': None, 'lags': 0, 'leads': 0, 'alias': None, 'preferred': [], 'tracer': False,
+            'trace_vars': None}
+    evs = [init('list'), ['op', 1, ['addvar', 'V1', [h(1.0), h(2.0), h(3.0)], 'float']], ['op', 1, ['addvar', 'V2', [None, None, None], 'object']],
+           ['op', 1, ['setattrlist', 'ind', [1, 2]]], ['op', 1, ['setattr', 'nam', 3]]]
+    evs += [['copy', 1, r] for r in routes]
+    evs += [['op', 2, ['setscalar', 'V1', h(8.0)]], ['op', 3, ['lappend', 'ind', 5]], ['op', 1, ['setitem', 'V1', 2, h(9.0), 'label']]]
+    out.append({'classes': [cont], 'shared_spans': [], 'events': evs, 'flavour': 'container'})
+    return [finish(c) for c in out]
+
+
 def gen(rng, tier):
-    cases = []
+    cases = corpus_cases()
     uniq = [0]
     n = 2000 if tier == 'quick' else 16000
     flavours = ['model', 'parsed', 'alias', 'tracer', 'tracer', 'both', 'container', 'linker']
